@@ -16,7 +16,7 @@ def gen_scenario(rng, max_threads):
         if c == 'par':
             lines.append('par %d' % rng.range(1, 12))
         elif c == 'async':
-            lines.append('async %d %d' % (rng.range(1, nq), rng.range(1, 6)))
+            lines.append('async %d %d' % (rng.range(1, nq), rng.range(1, 6) if rng.chance(3, 4) else rng.range(30, 70)))   # also long backlogs
         elif c == 'waitpar':
             lines.append('waitpar')
         elif c == 'waitq':
@@ -41,6 +41,9 @@ CORPUS = [
     ('empty_range', ['seed 1 0', 'disp 2', 'pfor 5 5', 'pfor 0 1', 'del']),
     ('shutdown_pending', ['seed 9 500', 'disp 3', 'queue', 'par 40', 'async 1 10', 'del']),
     ('single_thread_mode', ['seed 2 0', 'disp 2', 'single 1', 'par 5', 'waitpar', 'single 0', 'par 5', 'waitpar', 'del']),
+    # a long backlog of one serial queue served by workers and by the helping waiter at the same time
+    ('serial_backlog_helper', ['seed 5 0', 'disp 3', 'queue', 'async 1 60', 'waitq 1', 'async 1 60', 'waitq 1', 'async 1 60', 'waitq 1', 'del']),
+    ('serial_backlog_two_queues', ['seed 6 20', 'disp 4', 'queue', 'queue', 'async 1 50', 'async 2 50', 'par 8', 'waitq 2', 'waitq 1', 'waitpar', 'async 2 40', 'waitq 2', 'del']),
     ('single_mode_with_work_in_flight', ['seed 4 400', 'disp 2', 'par 12', 'single 1', 'waitpar', 'par 3', 'single 0', 'par 9', 'single 1', 'pfor 0 9', 'waitpar', 'del']),
 ]
 
